@@ -245,6 +245,17 @@ func (r *Run) Add(k string, n int64) {
 	r.mu.Unlock()
 }
 
+// AddNote appends a text to a list-valued extra coverage key (at most 20
+// entries are kept; lists of workers are concatenated by the parent).
+func (r *Run) AddNote(k string, text string) {
+	r.mu.Lock()
+	defer r.mu.Unlock()
+	cur, _ := r.Extra[k].([]interface{})
+	if len(cur) < 20 {
+		r.Extra[k] = append(cur, text)
+	}
+}
+
 // Assume records an assumption.
 func (r *Run) Assume(s string) {
 	r.mu.Lock()
@@ -635,6 +646,14 @@ func (r *Run) merge(d *dump) {
 		if f, ok := v.(float64); ok {
 			cur, _ := r.Extra[k].(float64)
 			r.Extra[k] = cur + f
+		} else if l, ok := v.([]interface{}); ok {
+			cur, _ := r.Extra[k].([]interface{})
+			for _, e := range l {
+				if len(cur) < 20 {
+					cur = append(cur, e)
+				}
+			}
+			r.Extra[k] = cur
 		} else if old, exists := r.Extra[k]; !exists {
 			r.Extra[k] = v
 		} else if so, ok := old.(string); ok {
